@@ -349,6 +349,58 @@ Section Trie.
         end
     end.
 
+  (* ---------------------------------------------------------------- Spec: the documented priority.
+     A candidate is tried along the transitions of its rule; None marks the late trailing-slash clause
+     (a rule without strict slashes matched with one extra trailing slash: tried last at its state). *)
+  Definition ekey : Type := option cpart.
+  Definition elt_lt (x y : ekey) : bool :=
+    match x, y with
+    | Some (PStatic _), Some (PDyn _) => true          (* literal text beats a variable *)
+    | Some (PDyn d1), Some (PDyn d2) => wlt d1 d2      (* the lighter Weighting first *)
+    | Some _, None => true                             (* the late clause comes last *)
+    | _, _ => false
+    end.
+  (* K1 is tried strictly before K2 whatever the insertion order: a proper prefix, or at the first
+     difference a smaller transition *)
+  Inductive key_lt : list ekey -> list ekey -> Prop :=
+  | kl_prefix y t : key_lt [] (y :: t)
+  | kl_head x y t1 t2 : elt_lt x y = true -> key_lt (x :: t1) (y :: t2)
+  | kl_tail x t1 t2 : key_lt t1 t2 -> key_lt (x :: t1) (x :: t2).
+  Definition cand_key (k : ckind) (r : rule) : list ekey :=
+    match k with
+    | KLate => map Some (rparts r) ++ [None]
+    | _ => map Some (rparts r)
+    end.
+
+  (* the candidates of cands, each with the transitions it was reached by *)
+  Definition dyn_kcollect (f : state -> list str -> list str -> list (list ekey * cand)) (part : str) (rest values : list str)
+    : list (dpart * state) -> list (list ekey * cand) :=
+    fix loop l := match l with
+                  | [] => []
+                  | (d, c) :: l' =>
+                      match pmatch d part rest with
+                      | Some (groups, remaining) =>
+                          map (fun kc => (Some (PDyn d) :: fst kc, snd kc)) (f c remaining (values ++ groups)) ++ loop l'
+                      | None => loop l'
+                      end
+                  end.
+  Fixpoint kcands (s : state) (parts : list str) (values : list str) {struct s} : list (list ekey * cand) :=
+    match s with
+    | St dyn rules stat =>
+      match parts with
+      | [] =>
+          map (fun r => ([], (KHere, r, values))) rules
+          ++ match stat_find [] stat with
+             | Some c => map (fun r => ([Some (PStatic [])], (KSlash, r, values))) (st_rules c)
+             | None => []
+             end
+      | part :: rest =>
+          map (fun kc => (Some (PStatic part) :: fst kc, snd kc)) (stat_apply (fun c => kcands c rest values) [] part stat)
+          ++ dyn_kcollect (fun c rem vals => kcands c rem vals) part rest values dyn
+          ++ (if is_empty_part parts then map (fun r => ([None], (KLate, r, values))) rules else [])
+      end
+    end.
+
   (* rule r sits in state s behind the transitions sigma *)
   Inductive stored (r : rule) : state -> list cpart -> Prop :=
   | stored_here dyn rules stat : In r rules -> stored r (St dyn rules stat) []
